@@ -280,7 +280,7 @@ func build(tier string) []*explore.Scenario {
 		scs = append(scs, sc)
 	}
 	if tier == "thorough" {
-		scs = append(scs, scenario(plan{Listeners: 2, Inbound: 2, Connects: 1}, 2), scenario(plan{Listeners: 2, Inbound: 1, LClose: true, Relisten: true}, 2))
+		scs = append(scs, scenario(plan{Listeners: 2, Inbound: 2, Connects: 1}, 1), scenario(plan{Listeners: 2, Inbound: 1, LClose: true, Relisten: true}, 2))
 	}
 	return scs
 }
